@@ -392,6 +392,14 @@ class RenderAnnotation(GenericTypeRewriter[str]):
             rendered = re.sub(r"(?<![\w.])typing\.", "", rendered)
         # Temporary hacky workaround for #76 to fix remaining NoneType hints by search-replace
         rendered = re.sub(r"(?<![\w.])NoneType(?!\w)", "None", rendered)
+        # Likewise for the other builtin types that have no builtin name, where
+        # they come from the repr() of a generic.
+        for hidden, (module, name) in _HIDDEN_BUILTIN_TYPES.items():
+            rendered = re.sub(
+                r"(?<![\w.])%s(?!\w)" % re.escape(hidden.__qualname__),
+                module + "." + name,
+                rendered,
+            )
         return rendered
 
 
